@@ -58,7 +58,7 @@ def main():
             text = open(demo).read()
             m = re.search(r'(src/[\w/]+\.rs)', text)
             target = os.path.join(wt, m.group(1))
-            names = re.findall(r'#\[test\]\s*(?:#\[[^\]]*\]\s*)*fn\s+(\w+)', text)
+            names = re.findall(r'^[ \t]*#\[test\][ \t]*\n(?:[ \t]*#\[[^\]]*\][ \t]*\n)*[ \t]*(?:pub )?fn\s+(\w+)', text, re.M) or re.findall(r'#\[test\]\s*(?:#\[[^\]]*\]\s*)*fn\s+(\w+)', text)
             src = open(target).read()
             # a demo that brings its own module is appended; a bare #[test] goes inside the file's tests module
             if re.search(r'^\s*(pub\s+)?mod\s+\w+\s*\{', text, re.M):
